@@ -20,6 +20,47 @@ type FuncInfo struct {
 	Decl *ast.FuncDecl
 	Pkg  *packages.Package
 	Obj  *types.Func
+	// closure procedures ("<enclosing function key>$<local name>"): a function literal bound to a
+	// local of Outer, verified as a procedure of its own with every captured variable arbitrary
+	Lit   *ast.FuncLit
+	Outer *ast.FuncDecl
+}
+
+// indexClosures registers the function literals bound to a local name inside fd as closure
+// procedures (see FuncInfo.Lit). Decl is a synthetic declaration sharing the literal's type and body.
+func (p *Prog) indexClosures(pk *packages.Package, outerKey string, fd *ast.FuncDecl) {
+	reg := func(id *ast.Ident, fl *ast.FuncLit) {
+		if id == nil || id.Name == "_" {
+			return
+		}
+		k := outerKey + "$" + id.Name
+		if _, dup := p.Funcs[k]; dup {
+			return // first binding wins; a name bound twice cannot be addressed
+		}
+		decl := &ast.FuncDecl{Name: &ast.Ident{Name: id.Name, NamePos: fl.Pos()}, Type: fl.Type, Body: fl.Body}
+		p.Funcs[k] = &FuncInfo{Key: k, Decl: decl, Pkg: pk, Lit: fl, Outer: fd}
+	}
+	ast.Inspect(fd.Body, func(n ast.Node) bool {
+		switch x := n.(type) {
+		case *ast.AssignStmt:
+			if len(x.Lhs) == len(x.Rhs) {
+				for i, r := range x.Rhs {
+					if fl, ok := ast.Unparen(r).(*ast.FuncLit); ok {
+						if id, ok := x.Lhs[i].(*ast.Ident); ok {
+							reg(id, fl)
+						}
+					}
+				}
+			}
+		case *ast.ValueSpec:
+			for i, r := range x.Values {
+				if fl, ok := ast.Unparen(r).(*ast.FuncLit); ok && i < len(x.Names) {
+					reg(x.Names[i], fl)
+				}
+			}
+		}
+		return true
+	})
 }
 
 type Prog struct {
@@ -114,6 +155,7 @@ func LoadProg(repo string, patterns []string, specFiles []string) (*Prog, error)
 				}
 				k := funcKey(obj)
 				p.Funcs[k] = &FuncInfo{Key: k, Decl: fd, Pkg: pk, Obj: obj}
+				p.indexClosures(pk, k, fd)
 			}
 		}
 	}
